@@ -26,15 +26,41 @@
      class_psd_from_exposed  for parma/pma/pyule/pburg/pcovar/pmodcovar: stored ar/ma/rho, number of bins, and
                            psd[k] = c * (rho/sampling) * |B(w^k)|^2 / |A(w^k)|^2 of the stored coefficients,
                            c = (2 if real) * (2 pi NFFT / sampling if scale_by_freq); pyule does not store rho
+     ma_invertible         [ordered] INVERTIBILITY: every root z (in the field) of z^Q + b_1 z^(Q-1) + .. + b_Q, b the
+                           MA vector returned by ma, has |z|^2 < 1 — no algebraic closure needed: ma's second stage is
+                           aryule of the non-zero vector [1,a], so C12's aryule_stable (positive definite biased
+                           autocorrelation => roots in the open disc) applies.  Guard: data not identically zero
+                           (for x = 0 the code returns nan)
+     arma_ma_invertible    [ordered] the same for the MA part of arma_estimate when the filtered residual is not
+                           identically zero (the hypothesis of arma_rho_pos)
+     ma_invertible_ext / arma_ma_invertible_ext   data in F, roots in ANY ordered *-field K that F maps into by a
+                           conj-compatible ring homomorphism; axiom-free
+     ma_invertible_complex / arma_ma_invertible_complex / ma_invertible_C   data in the Gaussian rationals (the
+                           executed instance) resp. in C: EVERY complex root has Cmod z < 1 (Coquelicot's C; these
+                           three use the standard-library axioms of the reals, printed below — nothing else does)
+     ma_grid_nonzero       [ordered] B(w^k) <> 0 at every grid point of every NFFT (a root on the unit circle would
+                           have |z|^2 = 1), also in C08's notation polyz_opt (discharges the hypothesis of C08's
+                           arma2psd_formula / arma2psd_nonneg for MA parts)
+     class_psd_pos         [ordered] generic: rho > 0, sampling > 0, 2 pi > 0 and A, B non-vanishing on the grid =>
+                           every stored PSD bin is > 0 (and every division in it is by a non-zero number: finite)
+     pma_psd_pos           [ordered] pma: every bin > 0, B(w^k) <> 0 — unconditional for data not identically zero
+     pyule_psd_pos         [ordered] pyule: every bin > 0 and A(w^k) <> 0 (aryule_stable + Yule-Walker positivity)
+     pburg_psd_pos         [ordered] pburg (no criterion): every bin > 0 and A(w^k) <> 0 (C13's arburg stability, rho > 0)
+     parma_psd_pos         [ordered] parma: B(w^k) <> 0 and rho > 0 always (residual not identically zero); every bin
+                           > 0 PROVIDED A(w^k) <> 0 on the grid — the AR part comes from the covariance method,
+                           which has no stability guarantee (a covariance-method pole can sit on the unit circle)
    NOT PROVED:
-     zeros of the MA polynomial strictly inside the unit circle (root location) — search only;
-     strict positivity / finiteness of the PSDs (A(w^k) <> 0 on the grid) — search only;
+     A(w^k) <> 0 for the covariance-method AR parts (parma, pcovar, pmodcovar): no stability theorem exists for the
+     covariance / modified covariance method, so strict positivity / finiteness of those three PSDs is search only
+     (class_psd_pos gives it under that hypothesis); rho > 0 of pcovar / pmodcovar is C14's;
      that arcovar_marple / scipy lstsq solve the normal equations (oracle hypothesis; correspondence + search);
-     the stated domain of arma_estimate is larger than [arma_returns]: for lag < P, lag = P > 4, lag >= N the
-     code raises, for P <= lag < 2P <= 8 it can return NaN (reported by the check as violations, see the note). *)
+     the stated domain of arma_estimate is larger than [arma_returns_iff]: for lag < P, lag = P > 4, lag >= N the
+     code raises, for P <= lag < 2P <= 8 it can return NaN (known findings D26, six keys). *)
 Require Import Spectrum.Theory.Ops Spectrum.Theory.Sum Spectrum.Theory.Vec Spectrum.Theory.Order Spectrum.Theory.Dft
                Spectrum.Model.Levinson Spectrum.Model.Corr Spectrum.Model.ArmaEst
+               Spectrum.Model.Burg Spectrum.Model.Arma2psd Spectrum.Proofs.YulePD Spectrum.Proofs.YuleExt
                Spectrum.Proofs.LevinsonTheory Spectrum.Proofs.ArmaEstTheory Spectrum.Proofs.ArmaEstPsd Spectrum.Proofs.ArmaEstPos
+               Spectrum.Proofs.ArmaEstStable
                Spectrum.Instances.QcC Spectrum.Instances.QcCOrd Spectrum.Instances.QcCTw.
 From Coq Require Import QArith Qcanon.
 
@@ -132,7 +158,97 @@ Theorem arma_rho_pos (lsm lsq : list F -> nat -> list F) (x : list F) P Q lag a 
   (exists t, (t < length x - P)%nat /\ nthF (arma_resid x a P) t <> 0) ->
   pos rho.
 Proof. exact (arma_rho_pos_thm lsm lsq x P Q lag a b rho). Qed.
+
+(* ---------- invertibility: z^Q + b_1 z^(Q-1) + .. + b_Q (numpy.roots([1, b])) has all roots in the open unit disc ---------- *)
+Theorem ma_invertible (x : list F) Q M b rho (z : F) :
+  (exists n, (n < length x)%nat /\ nthF x n <> 0) ->
+  ma x Q M = inr (b, rho) ->
+  sumf (S Q) (fun j => afun b j * fpow z (Q - j)) = 0 -> lt (nrm2 z) 1.
+Proof. exact (ma_invertible_thm x Q M b rho z). Qed.
+
+Theorem arma_ma_invertible (lsm lsq : list F -> nat -> list F) (x : list F) P Q lag a b rho (z : F) :
+  arma_estimate lsm lsq x P Q lag = inr (a, b, rho) ->
+  (exists t, (t < length x - P)%nat /\ nthF (arma_resid x a P) t <> 0) ->
+  sumf (S Q) (fun j => afun b j * fpow z (Q - j)) = 0 -> lt (nrm2 z) 1.
+Proof. exact (arma_ma_invertible_thm lsm lsq x P Q lag a b rho z). Qed.
+
+(* ---------- strictly positive, finite PSDs ---------- *)
+Theorem ma_grid_nonzero (tw : Z -> F) (NFFT : nat) (Tw : Twiddle NFFT tw) (x : list F) Q M b rho (k : nat) :
+  (1 <= NFFT)%nat -> (exists n, (n < length x)%nat /\ nthF x n <> 0) ->
+  ma x Q M = inr (b, rho) ->
+  Spectrum.Proofs.ArmaEstPsd.polyval tw (Some b) k <> 0 /\ polyz_opt tw (Some b) (Z.of_nat k) <> 0.
+Proof. exact (fun HN => ma_grid_nonzero_thm tw NFFT HN x Q M b rho k). Qed.
+
+Theorem class_psd_pos (tw : Z -> F) (c : pclass) (ar ma : list F) (v : F) (N order : nat) (twopi sampling : F)
+        (NFFT : nat) (real sbf : bool) (e : exposed) : (1 <= NFFT)%nat ->
+  class_call tw c ar ma v N order twopi sampling NFFT real sbf = inr e ->
+  pos (class_rho c v N order) -> pos sampling -> pos twopi ->
+  (forall k, Spectrum.Proofs.ArmaEstPsd.polyval tw (x_ar e) k <> 0) ->
+  (forall k, Spectrum.Proofs.ArmaEstPsd.polyval tw (x_ma e) k <> 0) ->
+  forall k, (k < nbins real NFFT)%nat -> pos (nthF (x_psd e) k).
+Proof. exact (class_psd_pos_thm tw c ar ma v N order twopi sampling NFFT real sbf e). Qed.
+
+Theorem pma_psd_pos (tw : Z -> F) (NFFT : nat) (Tw : Twiddle NFFT tw) (x : list F) Q M b rho ar N order twopi sampling real sbf e :
+  (1 <= NFFT)%nat -> (exists n, (n < length x)%nat /\ nthF x n <> 0) ->
+  ma x Q M = inr (b, rho) ->
+  class_call tw Cpma ar b rho N order twopi sampling NFFT real sbf = inr e ->
+  pos sampling -> pos twopi ->
+  forall k, (k < nbins real NFFT)%nat ->
+    pos (nthF (x_psd e) k) /\ Spectrum.Proofs.ArmaEstPsd.polyval tw (x_ma e) k <> 0.
+Proof. exact (fun HN => pma_psd_pos_thm tw NFFT HN x Q M b rho ar N order twopi sampling real sbf e). Qed.
+
+Theorem pyule_psd_pos (tw : Z -> F) (NFFT : nat) (Tw : Twiddle NFFT tw) (x : list F) p a P ks ma N order twopi sampling real sbf e :
+  (1 <= NFFT)%nat -> (exists n, (n < length x)%nat /\ nthF x n <> 0) ->
+  Spectrum.Model.ArmaEst.aryule x p Biased = Some (a, P, ks) ->
+  class_call tw Cpyule a ma P N order twopi sampling NFFT real sbf = inr e ->
+  pos sampling -> pos twopi ->
+  forall k, (k < nbins real NFFT)%nat ->
+    pos (nthF (x_psd e) k) /\ Spectrum.Proofs.ArmaEstPsd.polyval tw (x_ar e) k <> 0.
+Proof. exact (fun HN => pyule_psd_pos_thm tw NFFT HN x p a P ks ma N order twopi sampling real sbf e). Qed.
+
+Theorem pburg_psd_pos (tw : Z -> F) (NFFT : nat) (Tw : Twiddle NFFT tw) (x : list F) p a rho ks ma N order twopi sampling real sbf e :
+  (1 <= NFFT)%nat ->
+  arburg x p no_stop = Some (a, rho, ks) ->
+  class_call tw Cpburg a ma rho N order twopi sampling NFFT real sbf = inr e ->
+  pos sampling -> pos twopi ->
+  forall k, (k < nbins real NFFT)%nat ->
+    pos (nthF (x_psd e) k) /\ Spectrum.Proofs.ArmaEstPsd.polyval tw (x_ar e) k <> 0.
+Proof. exact (fun HN => pburg_psd_pos_thm tw NFFT HN x p a rho ks ma N order twopi sampling real sbf e). Qed.
+
+Theorem parma_psd_pos (tw : Z -> F) (NFFT : nat) (Tw : Twiddle NFFT tw) (lsm lsq : list F -> nat -> list F)
+        (x : list F) P Q lag a b rho N order twopi sampling real sbf e :
+  (1 <= NFFT)%nat ->
+  arma_estimate lsm lsq x P Q lag = inr (a, b, rho) ->
+  (exists t, (t < length x - P)%nat /\ nthF (arma_resid x a P) t <> 0) ->
+  class_call tw Cparma a b rho N order twopi sampling NFFT real sbf = inr e ->
+  pos sampling -> pos twopi ->
+  (forall k, Spectrum.Proofs.ArmaEstPsd.polyval tw (Some b) k <> 0)
+  /\ ((forall k, Spectrum.Proofs.ArmaEstPsd.polyval tw (Some a) k <> 0) ->
+      forall k, (k < nbins real NFFT)%nat -> pos (nthF (x_psd e) k)).
+Proof. exact (fun HN => parma_psd_pos_thm tw NFFT HN lsm lsq x P Q lag a b rho N order twopi sampling real sbf e). Qed.
 End C15.
+
+(* data in F, roots in an ordered extension K *)
+Section C15ext.
+Context {F : Type} {OF : Ops F} {L : Laws OF} {OL : OrdLaws OF}.
+Context {K : Type} {OK : Ops K} {LK : Laws OK} {OLK : OrdLaws OK}.
+Local Open Scope F_scope.
+Theorem ma_invertible_ext (phi : F -> K) (x : list F) Q M b rho (z : K) :
+  phi 0 = 0 -> phi 1 = 1 -> (forall u v, phi (u + v) = phi u + phi v) -> (forall u v, phi (u * v) = phi u * phi v) ->
+  (forall u, phi (conj u) = conj (phi u)) ->
+  (exists n, (n < length x)%nat /\ nthF x n <> 0) ->
+  ma x Q M = inr (b, rho) ->
+  sumf (S Q) (fun j => phi (afun b j) * fpow z (Q - j)) = 0 -> lt (nrm2 z) 1.
+Proof. intros h0 h1 ha hm hc. exact (ma_invertible_ext_thm phi (mkHom phi h0 h1 ha hm hc) x Q M b rho z). Qed.
+
+Theorem arma_ma_invertible_ext (phi : F -> K) (lsm lsq : list F -> nat -> list F) (x : list F) P Q lag a b rho (z : K) :
+  phi 0 = 0 -> phi 1 = 1 -> (forall u v, phi (u + v) = phi u + phi v) -> (forall u v, phi (u * v) = phi u * phi v) ->
+  (forall u, phi (conj u) = conj (phi u)) ->
+  arma_estimate lsm lsq x P Q lag = inr (a, b, rho) ->
+  (exists t, (t < length x - P)%nat /\ nthF (arma_resid x a P) t <> 0) ->
+  sumf (S Q) (fun j => phi (afun b j) * fpow z (Q - j)) = 0 -> lt (nrm2 z) 1.
+Proof. intros h0 h1 ha hm hc. exact (arma_ma_invertible_ext_thm phi (mkHom phi h0 h1 ha hm hc) lsm lsq x P Q lag a b rho z). Qed.
+End C15ext.
 
 (* ---------- non-vacuity on the executed instance (Gaussian rationals) ---------- *)
 Definition ex_x : list QcC := [cz (1,0) (0,0); cz (-1,1) (1,0); cz (3,0) (0,0); cz (1,0) (-1,0); cz (-1,0) (1,1);
@@ -174,6 +290,62 @@ Example class_example :
   exists e, @class_call _ qcc_ops tw4 Cparma ex_ar ex_ma ex_v 10 1 ex_twopi ex_fs 4 false true = inr e /\ length (x_psd e) = 4%nat.
 Proof. vm_compute. eexists. split; reflexivity. Qed.
 
+(* the invertibility and positivity theorems apply to the executed instance *)
+Example ma_invertible_example :=
+  fun b rho (Hm : @ma _ qcc_ops ex_x 2 4 = inr (b, rho)) z =>
+    @ma_invertible QcC qcc_ops qcc_laws qcc_ord ex_x 2 4 b rho z ex_x_nonzero Hm.   (* hypothesis met: ma_example *)
+Lemma ex_fs_pos : pos (OF:=qcc_ops) (OL:=qcc_ord) ex_fs.
+Proof.
+  replace ex_fs with (@ofnat _ qcc_ops 2) by (apply qcc_eq_canon; vm_compute; reflexivity).
+  apply (@pos_ofnat _ qcc_ops qcc_laws qcc_ord). lia.
+Qed.
+Lemma ex_twopi_pos : pos (OF:=qcc_ops) (OL:=qcc_ord) ex_twopi.
+Proof.
+  replace ex_twopi with (@div _ qcc_ops (@ofnat _ qcc_ops 25) (@ofnat _ qcc_ops 4)) by (apply qcc_eq_canon; vm_compute; reflexivity).
+  apply (@pos_div _ qcc_ops qcc_laws qcc_ord); apply (@pos_ofnat _ qcc_ops qcc_laws qcc_ord); lia.
+Qed.
+Example pma_psd_pos_example :
+  exists b rho e, @ma _ qcc_ops ex_x 2 4 = inr (b, rho)
+    /\ @class_call _ qcc_ops tw4 Cpma [] b rho 10 4 ex_twopi ex_fs 4 false true = inr e
+    /\ forall k, (k < 4)%nat -> pos (OF:=qcc_ops) (OL:=qcc_ord) (nthF (OF:=qcc_ops) (x_psd e) k).
+Proof.
+  do 3 eexists. split; [vm_compute; reflexivity|]. split; [vm_compute; reflexivity|].
+  intros k Hk.
+  refine (proj1 (@pma_psd_pos QcC qcc_ops qcc_laws qcc_ord tw4 4 tw4_twiddle ex_x 2 4 _ _ [] 10 4 ex_twopi ex_fs false true _
+                  ltac:(lia) ex_x_nonzero _ _ _ _ k Hk)).
+  - vm_compute; reflexivity.
+  - vm_compute; reflexivity.
+  - exact ex_fs_pos.
+  - exact ex_twopi_pos.
+Qed.
+
+(* ---------- all complex roots: instances at Coquelicot's C (standard-library real-number axioms) ---------- *)
+Require Import Spectrum.Instances.Cplx_C12 Spectrum.Proofs.YuleComplex Spectrum.Proofs.ArmaEstStableC.
+From Coq Require Import Reals.
+From Coquelicot Require Import Complex.
+
+Theorem ma_invertible_complex (x : list QcC) (Q M : nat) (b : list QcC) (rho : QcC) (z : C) :
+  (exists n, (n < length x)%nat /\ nthF (OF:=qcc_ops) x n <> zero (Ops:=qcc_ops)) ->
+  ma (OF:=qcc_ops) x Q M = inr (b, rho) ->
+  sumf (OF:=c_ops) (S Q) (fun j => Cmult (qcc_to_c (afun (OF:=qcc_ops) b j)) (fpow (OF:=c_ops) z (Q - j))) = RtoC 0 ->
+  (Cmod z < 1)%R.
+Proof. exact (ma_invertible_complex_thm x Q M b rho z). Qed.
+
+Theorem arma_ma_invertible_complex (lsm lsq : list QcC -> nat -> list QcC) (x : list QcC) (P Q lag : nat)
+        (a b : list QcC) (rho : QcC) (z : C) :
+  arma_estimate (OF:=qcc_ops) lsm lsq x P Q lag = inr (a, b, rho) ->
+  (exists t, (t < length x - P)%nat /\ nthF (OF:=qcc_ops) (arma_resid (OF:=qcc_ops) x a P) t <> zero (Ops:=qcc_ops)) ->
+  sumf (OF:=c_ops) (S Q) (fun j => Cmult (qcc_to_c (afun (OF:=qcc_ops) b j)) (fpow (OF:=c_ops) z (Q - j))) = RtoC 0 ->
+  (Cmod z < 1)%R.
+Proof. exact (arma_ma_invertible_complex_thm lsm lsq x P Q lag a b rho z). Qed.
+
+Theorem ma_invertible_C (x : list C) (Q M : nat) (b : list C) (rho : C) (z : C) :
+  (exists n, (n < length x)%nat /\ nthF (OF:=c_ops) x n <> RtoC 0) ->
+  ma (OF:=c_ops) x Q M = inr (b, rho) ->
+  sumf (OF:=c_ops) (S Q) (fun j => Cmult (afun (OF:=c_ops) b j) (fpow (OF:=c_ops) z (Q - j))) = RtoC 0 ->
+  (Cmod z < 1)%R.
+Proof. exact (ma_invertible_C_thm x Q M b rho z). Qed.
+
 Print Assumptions ma_lengths.
 Print Assumptions ma_returns.
 Print Assumptions ma_errors.
@@ -185,3 +357,16 @@ Print Assumptions arma_residual_filter.
 Print Assumptions class_psd_from_exposed.
 Print Assumptions ma_valid.
 Print Assumptions arma_rho_pos.
+Print Assumptions ma_invertible.
+Print Assumptions arma_ma_invertible.
+Print Assumptions ma_grid_nonzero.
+Print Assumptions class_psd_pos.
+Print Assumptions pma_psd_pos.
+Print Assumptions pyule_psd_pos.
+Print Assumptions pburg_psd_pos.
+Print Assumptions parma_psd_pos.
+Print Assumptions ma_invertible_ext.
+Print Assumptions arma_ma_invertible_ext.
+Print Assumptions ma_invertible_complex.
+Print Assumptions arma_ma_invertible_complex.
+Print Assumptions ma_invertible_C.
